@@ -474,7 +474,7 @@ fn random_text(rng: &mut Rng) -> String {
                         b.remove(p);
                     }
                     1 => b.insert(p, *rng.pick(&['0', '9', '-', '+', ':', '.', ' ', 'T', 'Z', '\u{2212}', '\u{ff11}', 'é', 'ß', 'Ω', '日', '\u{130}', '\u{1F600}', '\u{3000}', 'a', '(', ')', '\\'])),
-                    2 => b[p] = *rng.pick(&['0', '1', '9', '-', '+', ':', ' ', 'x', '\u{0661}', '\0']),
+                    2 => b[p] = if rng.chance(1, 3) { *rng.pick(&gen::lead_byte_chars()) } else { *rng.pick(&['0', '1', '9', '-', '+', ':', ' ', 'x', '\u{0661}', '\0']) },
                     3 => {
                         if rng.chance(1, 2) {
                             b.truncate(p)
